@@ -29,7 +29,7 @@ def selected(prog, ign, inst_first):
     # positional-or-keyword parameters still open in a call: the underlying ones minus the bound instance
     # minus those consumed by the partial's positionals
     under = sk.pnames(prog)
-    if prog['kind'] in ('partial', 'partial_method'):
+    if prog['kind'] in ('partial', 'partial_method', 'partial_callable'):
         under = under[prog['p_npos']:]
     remaining = (['self'] if inst_first else []) + under
     shift = 1 if (inst_first and 'self' in names) else 0          # the instance is removed from the key
@@ -234,7 +234,7 @@ def run_program(tier, idx, prog=None, plan=None, seed=None):
                     kwonly_involved = prog['nkw'] > 0
                     pfix = prog['kind'].startswith('partial') and prog['p_npos'] > (prog['npos'] - prog['ndef']) and not prog['varargs']
                     viol.append(dict(prop='C19', sig=dict(kind='called-the-function' if rec['called'] else 'wrong-verdict', kwonly=kwonly_involved,
-                                                          partial_fixes_default=bool(pfix), partial_method=prog['kind'] == 'partial_method',
+                                                          partial_fixes_default=bool(pfix), partial_method=prog['kind'] in ('partial_method', 'partial_callable'), partial_callable=prog['kind'] == 'partial_callable',
                                                           partial_kw=prog['kind'].startswith('partial') and prog['p_kw'],
                                                           says=str(iv), really=rec['really_valid']),
                                      msg='isvalid=%r validate=%r but binding %s; called=%d; call %r %r' % (iv, vv, 'succeeds' if rec['really_valid'] else 'fails', rec['called'], rec['args'], rec['kw']),
